@@ -32,6 +32,8 @@ CONSTANTS
     CheckText,   \* evaluate ParseFile(Render(fc)) = inst
     ReportCap,   \* how many final matchings get an expected report in the export
     Detail,      \* export F0 and per-solve sets
+    Shifts,      \* set of id shifts <<ks, kp, kl>>: the built instance is embedded among ks dummy students, kp dummy
+                 \* projects and kl dummy lecturers (nobody ranks them), so that the active agent numbers are large
     ExportMode   \* "run": export finished runs; "checker": export stability verdicts of all upper-quota-respecting
                  \* assignments; "load": export the instance as denoted by the file, nothing is solved
 
@@ -148,18 +150,39 @@ FCofB ==
       lprefs |-> IF b.sided = "one" THEN EmptyLists ELSE b.lprefs,
       lranks |-> IF b.sided = "one" THEN EmptyLists ELSE b.lranks ]
 
+(* Embedding among dummy agents: a shift is <<ks, kp, kl>>.  Students 1..ks have empty lists, projects       *)
+(* 1..kp (lecturer 1, quotas 0..1) are ranked by nobody, lecturers 1..kl (quotas 0,0,1) offer nothing (or only *)
+(* dummy projects); the built agents are renumbered s+ks, p+kp, l+kl.  Admissible matchings are the same up    *)
+(* to renaming; the numbers in the file are large.  (For 2-agent files hospitals are projects: kl = kp.)        *)
+ShiftSeq(q, d) == [i \in DOMAIN q |-> q[i] + d]
+ShiftFC(f, sh) ==
+    LET ks == sh[1]  kp == sh[2]  kl == IF f.na = 2 THEN sh[2] ELSE sh[3] IN
+    IF ks = 0 /\ kp = 0 /\ kl = 0 THEN f ELSE
+    [ na |-> f.na, ns |-> f.ns + ks, np |-> f.np + kp, nl |-> f.nl + kl,
+      prefs |-> [s \in 1 .. f.ns + ks |-> IF s <= ks THEN <<>> ELSE ShiftSeq(f.prefs[s - ks], kp)],
+      ranks |-> [s \in 1 .. f.ns + ks |-> IF s <= ks THEN <<>> ELSE f.ranks[s - ks]],
+      plq |-> [p \in 1 .. f.np + kp |-> IF p <= kp THEN 0 ELSE f.plq[p - kp]],
+      puq |-> [p \in 1 .. f.np + kp |-> IF p <= kp THEN 1 ELSE f.puq[p - kp]],
+      plec |-> [p \in 1 .. f.np + kp |-> IF p <= kp THEN (IF f.na = 2 THEN p ELSE 1) ELSE f.plec[p - kp] + kl],
+      llq |-> [l \in 1 .. f.nl + kl |-> IF l <= kl THEN 0 ELSE f.llq[l - kl]],
+      lt  |-> [l \in 1 .. f.nl + kl |-> IF l <= kl THEN (IF f.na = 2 THEN 1 ELSE 0) ELSE f.lt[l - kl]],
+      luq |-> [l \in 1 .. f.nl + kl |-> IF l <= kl THEN 1 ELSE f.luq[l - kl]],
+      lists |-> f.lists,
+      lprefs |-> [l \in 1 .. f.nl + kl |-> IF l <= kl THEN <<>> ELSE ShiftSeq(f.lprefs[l - kl], ks)],
+      lranks |-> [l \in 1 .. f.nl + kl |-> IF l <= kl THEN <<>> ELSE f.lranks[l - kl]] ]
+
 ChooseOpts ==
     /\ b.stage = "opts"
     /\ \E pc \in PCs : \E stab \in Stabs : \E isbf \in BFs :
        \E cl \in (IF CritMode = "build" THEN {b.cl} ELSE CritLists) : \E pr \in Press :
-       \E sty \in Styles : \E blk \in InfoBlocks :
+       \E sty \in Styles : \E blk \in InfoBlocks : \E sh \in Shifts :
          LET twopl == b.sided = "two" IN
          /\ stab => twopl                           \* refusals are the business of MC_Options
-         /\ isbf => cl = <<>> /\ ~stab
+         /\ isbf => cl = <<>> /\ ~stab /\ sh = <<0, 0, 0>>      \* brute force enumerates (np+1)^ns assignments: no dummies
          /\ Admissible(Denote(FCofB, twopl), cl)
          /\ pr = "gap" => Len(cl) <= 4
          /\ (Len(cl) <= 1 => pr = "id")
-         /\ fc' = FCofB
+         /\ fc' = ShiftFC(FCofB, sh)
          /\ opts' = [na |-> NA, twopl |-> twopl, pc |-> pc, stab |-> stab, bf |-> isbf,
                      flags |-> Present(cl, pr), limit |-> 0]
          /\ style' = sty /\ block' = blk
